@@ -166,6 +166,20 @@ PROPS = {
         "assumptions": ["the oracle recomputes the CMAC with its own call of spao.ComputeAuthCMAC over the packet as received and the key it derives itself",
                         "path reversal is checked against the harness's own reversal of the encoded path"],
     },
+    "C15": {
+        "level": "exploration",
+        "budget": {"quick": 80, "thorough": 900},
+        "runs": {"quick": 3000, "thorough": 300000},
+        "rule": "one run = 2..10 rounds of the real MeasureClockOffsetSCION with 1..7 real SCIONClients (interleaved mode, recording filters, told apart on the wire by DSCP) and 0..10 paths, each through its own relay router; "
+                "per round a tape-chosen subset of the paths is offered (some listed twice, some without a fingerprint, order shuffled), packets are lost at the routers in half of the runs; every 50th run first enumerates crypto.Sample "
+                "over every sequence of accepted draws for n <= 7, k <= 4 and RandIntn on the rejection boundary with crypto/rand.Reader replaced by a scripted reader; non-trivial = at least two rounds judged; distinct = distinct event-log hash",
+        "exhaustive_part": "crypto.Sample: all draw sequences for n <= 7, k <= min(4,n) (each k-subset equally often); RandIntn residues/rejection at boundary words for n in {1,2,3,5,7,10,1000,2^20,2^31-1}",
+        "required_probes": ["round-checked", "multi-client-round", "sticky-path-kept", "reset-after-path-withdrawn", "no-path-error", "ftm-checked", "uniformity-enumerated"],
+        "components": {"real": ["core/client MeasureClockOffsetSCION, SCIONClient", "base/crypto Sample, RandIntn", "core/measurements FaultTolerantMidpoint", "core/server runSCIONServer"],
+                       "stub": dict(STUBS_COMMON, **{"border routers": "one scripted relay per offered path", "path lookup": "paths are handed to MeasureClockOffsetSCION directly (Pather not run)", "crypto/rand": "seeded per run; scripted reader for the enumeration"})},
+        "assumptions": ["uniformity is decided on the random seam (enumeration of draw sequences), not statistically; positions within the chosen subset are not required to be uniform",
+                        "paths without a fingerprint are outside the stickiness clause"],
+    },
     "C16": {
         "level": "exploration",
         "budget": {"quick": 40, "thorough": 600},
@@ -230,7 +244,7 @@ NOT_APPLICABLE = {
 
 # Properties that the design claims but whose world is not built yet (kept current).
 NOT_YET = {p: "designed (DESIGN.md section 3) but the simulated world is not built yet; not claimed until its check runs"
-           for p in ["C08", "C14", "C15"]}
+           for p in ["C08", "C14"]}
 
 PROPS["C01"].update(
     level_text="seeded exploration of multi-round histories of the real synchronization loop with scripted sources (values over the whole int64 range, failures, late answers, sources that never answer) and admissible/inadmissible configurations; per-round invariants: exactly one correction, magnitude bounds from the statement, exact value when every source answered in time, correction no later than the round's timeout; start-up refusal of inadmissible settings. Evidence, not proof.",
@@ -284,6 +298,10 @@ PROPS["C13"].update(
     level_text="seeded exploration with in-flight tampering at a relay router: a request (response) carrying the time service's authenticator is served (accepted) only if an independent recomputation of its CMAC matches, the reply to a verified request verifies, every reply goes to the previous hop over the independently reversed path with addresses and ports exchanged, SCMP payloads are echoed intact, and forwarding happens only from the end-host port and never back to it. Evidence, not proof.",
     level_note="IPv4 hosts, empty and standard SCION paths; DRKeys from a mock daemon; border-router MAC checks are not modelled",
     technique="deterministic simulation with fault injection: tampering relay router, independent MAC recomputation and reply-addressing oracle")
+PROPS["C15"].update(
+    level_text="seeded exploration of multi-round path offers, withdrawals, duplicates and losses with the path each client used observed at per-path relay routers: pairwise distinct paths, participation bounded by the offer, sticky interleaved paths, reset otherwise, error without paths, fault-tolerant midpoint of per-client values; plus complete enumeration of the sampling routine's draw sequences for small n, k. Evidence (exhaustive for the stated sampling sub-space), not proof.",
+    level_note="IPv4, no packet authentication in this world; clients identified by DSCP on the wire",
+    technique="deterministic simulation with fault injection: per-path relay routers as observers, enumerated random seam for uniformity")
 PROPS["C16"].update(
     level_text="seeded exploration of completion times around the deadline, success/error outcomes, release orders, select choices between a pending result and cancellation (the select in collectMeasurements is rewritten into a scheduler decision), slow-collector faults, overlapping and follow-up collections; oracles on return time, result prefix, refusal of overlap and goroutine quiescence. Evidence, not proof.",
     level_note="trusts the simulator's substitution of the receive-only select by simsync.Select (same semantics outside the simulator) and of context deadlines by scheduler events; goroutine leaks are judged from stack dumps of the run's bubble",
